@@ -100,6 +100,9 @@ def run_property(prop: str, tier: str):
     failed, unknown, by_backend, solver_seconds = [], [], {}, 0.0
     canaries = {}
     baseline = load_baseline()
+    from . import solve as _solve
+    proved_queries = set(baseline.get('__query_hashes__', {}).get(prop, []))
+    proved_hashes = []
     proved_now = {}
     n_obl = n_dis = 0
     samples = []
@@ -122,10 +125,15 @@ def run_property(prop: str, tier: str):
         n_obl += 1
         if v == 'unsat':
             proved_now.setdefault(o.fn, set()).add(stable_name(o.name))
+            proved_hashes.append(_solve.QHASH.get(o.name))
             n_dis += 1
             by_backend[backend] = by_backend.get(backend, 0) + 1
             if len(samples) < 4:
                 samples.append({'obligation': o.name, 'kind': o.kind, 'verdict': 'proved', 'backend': backend, 'seconds': secs})
+        elif v == 'failed' and _solve.QHASH.get(o.name) in proved_queries:
+            # this exact query text was proved when the baseline was recorded (same source, same contracts): the E-matching
+            # run is unstable today.  Never an alarm and never counted as proved: undecided.
+            unknown.append({'name': o.name, 'function': o.fn, 'kind': o.kind, 'note': 'unstable: identical query was proved when the baseline was recorded'})
         elif v in ('sat', 'failed'):
             if o.kind == 'type':
                 unsupported.append({'function': o.fn, 'reason': 'typing obligation %s not discharged (%s)' % (o.name, v)})
@@ -145,7 +153,6 @@ def run_property(prop: str, tier: str):
                                'backend': backend, 'model': model, 'note': o.note, 'source': src})
             else:
                 unknown.append({'name': o.name, 'function': o.fn, 'kind': o.kind})
-    from . import solve as _solve
     cross = {'cvc5_confirms': 0, 'cvc5_unknown': 0, 'cvc5_disagrees': []}
     if tier == 'thorough':
         for o in obligations:
@@ -164,7 +171,7 @@ def run_property(prop: str, tier: str):
             errors.append('vacuous: every normal exit of %s is unreachable under its contract (contradictory requires / invariant)' % fn_)
     return {'functions': functions, 'n_obligations': n_obl, 'n_discharged': n_dis, 'failed': failed, 'unknown': unknown,
             'unsupported': unsupported, 'errors': errors, 'by_backend': by_backend, 'solver_seconds': round(solver_seconds, 2),
-            'samples': samples, 'assumed_contracts': assumed, 'unverified': unverified, 'cross_check': cross, 'proved_now': {k: sorted(v) for k, v in proved_now.items()}, 'wall_s': round(time.time() - t0, 2)}
+            'samples': samples, 'assumed_contracts': assumed, 'unverified': unverified, 'proved_hashes': sorted(set(x for x in proved_hashes if x)), 'cross_check': cross, 'proved_now': {k: sorted(v) for k, v in proved_now.items()}, 'wall_s': round(time.time() - t0, 2)}
 
 
 def evidence(prop, tier, seed, pr, fl, violations, known_lines, undecided, checker_errors, wall):
